@@ -543,6 +543,24 @@ def sourceVersion (imports : List (String × Nat)) : Option Nat :=
 def needsConversionFull (protoDomains : List String) (imports : List (String × Nat)) (target : Nat) : Bool :=
   needsConversion protoDomains (defaultImports imports) target
 
+/-- the source text `needsConversion` / `defaultImports` / `sourceVersion` / `adaptInline` transcribe
+    (normalised by `ast.unparse`); `Generated.InlineFacts.adaptShape` is re-extracted from `_adapt.py`
+    on every run and must be equal to it (`C08.generated_adapt_decision`): an added guard, another
+    source of the versions, a second `return protos`, a loop or helper inside `adapt_inline` is a
+    code path this model does not describe -/
+def adaptShapeModelled : List (String × String) := [
+  ("params", "node, protos, target_opsets, var_names, node_name"),
+  ("target_version", "target_opsets['']"),
+  ("source_version", "max({imp.version for imp in node.model.opset_import if imp.domain in ('', 'ai.onnx')}, default=target_version)"),
+  ("seen_domains", "{prot.domain for prot in protos}"),
+  ("keep-if", "not seen_domains & {'', 'ai.onnx'}"),
+  ("convert-if", "source_version != target_version"),
+  ("convert-call", "onnx.version_converter.convert_version(node.model, target_version)"),
+  ("return-unconverted", "line-order 0"),
+  ("return-unconverted", "line-order 1"),
+  ("returns", "3"),
+  ("loops-or-nested-defs", "0")]
+
 /-- `Scope.of((node, node_name), *var_names.items())`: every value name of the build, no reserved
     names, no counters -/
 def freshCtx (c : Ctx) (varNames : List String) : Ctx :=
